@@ -596,6 +596,27 @@ def run(v):
             v.sample({"run": name, "history": edges[len(edges) // 2]["h"]})
     from . import c06_trace
     c06_trace.run(v)
+    # the ADF15 / ADF12 install front-ends (their keys depend on the document: AdfFormat.tla enumerates the documents, C08's
+    # writers render them): every block must be readable from the repository given and nothing may appear elsewhere
+    from . import c08
+    res = core.run_tlc("AdfFormat", c08.CFG.format(deep="FALSE").replace('{{"adf11", "adf15", "adf2x", "adf12"}}', '{{"adf15", "adf12"}}').replace('{"adf11", "adf15", "adf2x", "adf12"}', '{"adf15", "adf12"}'),
+                       workers=1, seed=v.seed, tag="C06-adf", timeout=3000)
+    core.tlc_must_pass(res, "AdfFormat/install-fronts")
+    v.add_tlc(res, "AdfFormat/adf15+adf12")
+    docs = [r for r in res.records if "doc" in r]
+    has_cx = lambda r: r["doc"]["kind"] == "adf15" and any(b["cls"] == "thermalcx" for b in r["exp"].get("blocks", []))     # noqa: E731
+    if not any(has_cx(r) for r in docs) or not any(r["doc"]["kind"] == "adf12" for r in docs):
+        raise core.MachineryError("vacuity: no ADF15 document with a charge-exchange block / no ADF12 document")
+    if v.tier == "quick" and len(docs) > 400:
+        import random
+        rng = random.Random(v.seed)
+        docs = [r for r in docs if has_cx(r) or rng.random() < 400.0 / len(docs)]
+    out = core.fan_out("mbt.c08", "replay", docs, None)
+    for r, vs in zip(docs, out):
+        for x in vs:
+            if "install" in x["sig"] or "outside" in x["sig"]:
+                v.violation("install-front:" + x["sig"], x["detail"], dict(r, part="adf-install"))
+    v.add_cases(len(docs), keys=["adf" + json.dumps(r["doc"], sort_keys=True) for r in docs])
     v.notes["invalid_input_accepted_not_asserted"] = unasserted
     v.assumptions += ["ADF11-style writers are given the table under the key 'rates' (as install.py does), not 'rate' as their docstrings say",
                       "value id -> concrete float64 tables by a seeded generator incl. subnormals, 1e300, -0.0",
@@ -603,6 +624,13 @@ def run(v):
     return v.finish(
         rule="one case = one TLC-explored edge (history of add/update/reject calls) replayed on the real repository with all keys read back; "
              "distinct = distinct histories; plus recorded random call sequences validated by TLC (Trace_Repository)")
+
+
+def replay_any(rec, ctx):
+    if rec.get("part") == "adf-install":
+        from . import c08
+        return [dict(x, sig="install-front:" + x["sig"]) for x in c08.replay(rec, ctx) if "install" in x["sig"] or "outside" in x["sig"]]
+    return replay(rec, ctx)
 
 
 def selftest():
